@@ -69,6 +69,7 @@ CHECKS = {
     "rec_sound": "chk_rec_sound",
     "rec_genuine": "chk_rec_genuine",
     "rec_complete": "chk_rec_complete",
+    "rec_vs_vcf": "chk_rec_vs_vcf",
     "rec_cover": "chk_rec_cover",
     "l2_reads": "l2_reads",
     "l2_vcf": "l2_vcf",
@@ -178,6 +179,13 @@ def execute(ctx, spec, opts_list):
                     "empty_instances": sum(1 for i in insts if not i["accessible_positions"]),
                     "readless_instances": sum(1 for i in insts if not i["reads"])}
             meta["coinciding"] = coinciding_positions(insts)
+            three = [i for i in insts if len(i["trios"]) == 2 and
+                     (i["trios"][0][0] in i["trios"][1][1:] or i["trios"][1][0] in i["trios"][0][1:])]
+            if three:
+                tr = three[0]["trios"]
+                meta["ped_child_first"] = tr[1][0] in tr[0][1:]      # the first registered trio's parent is the other's child
+                gc = tr[0][0] if meta["ped_child_first"] else tr[1][0]
+                meta["grandchild_events"] = sum(1 for e in (files["recs"] or []) if e != "H" and e[0] == intern(gc))
             # (only to name a failure) does a list hold nothing but the entries of the last call?
             gl = [e for e in (files["gts"] or []) if e != "H"]
             last_chrom = insts[-1]["chromosome"] if insts else None
@@ -232,6 +240,19 @@ def plan(ctx):
             oi = G.make_options(rng, sp, (1, rng.choice([0, 1]), 1), d, 1)
             oi.update(recombrate=rng.choice([1.26, 10000, 1000000]), use_ped_samples=False, only_snvs=False)
             opts.append(oi)
+        jobs.append((sp, opts))
+    # targeted stream: three-generation families, PED lines top-down and grandchild-first, with and without reads
+    for k in range(ctx.n(6, 30)):
+        sp = G.make_spec(rng, {"structure": rng.choice(["three_gen", "three_gen_single", "three_gen_maternal"]),
+                               "ped_child_first": bool(k % 2), "recomb_prob": rng.choice([0.15, 0.3]),
+                               "missing_gt": False, "gt_error": 0.08, "multi_change": 0.0, "all_hom_chrom": None,
+                               "nreads": rng.choice([0, 0, 6, 20])})
+        opts = []
+        for d in (0, rng.choice([0, 1])):
+            o3 = G.make_options(rng, sp, (1, rng.choice([0, 1]), 1), d, 1)
+            o3.update(recombrate=rng.choice([10000, 300000, 1000000]), genmap=False, samples=None, tag_hp=False,
+                      use_ped_samples=False, no_genetic_haplotyping=False)
+            opts.append(o3)
         jobs.append((sp, opts))
     nscen = ctx.n(32, 300)
     per = ctx.n(3, 4)
@@ -318,6 +339,9 @@ def evaluate(ctx, results):
                     "missing_gt", "interleave", "same_coords"):
             if spec.get(key):
                 ctx.tally("input." + key)
+        if spec["structure"].startswith("three_gen") and opt["ped"]:
+            ctx.tally("three_generation_runs.ped_" + ("child_first" if meta.get("ped_child_first") else "top_down"))
+            ctx.tally("three_generation_runs.grandchild_events", meta.get("grandchild_events", 0))
         if spec.get("paired_fraction"):
             ctx.tally("input.paired_reads")
         if spec.get("all_hom_chrom") is not None:
@@ -392,7 +416,13 @@ def evaluate(ctx, results):
                     ctx.violation("phase:recombination-entry-missing",
                                   "a change of the transmission vector between neighbouring variants of one phase set of a processed "
                                   "(chromosome, family) is not listed: " + desc, rp)
-            elif not holds("rec_cover", i):
+            if not holds("rec_vs_vcf", i):
+                ctx.violation("phase:recombination-list-contradicts-phased-vcf",
+                              "between two consecutive variants of one phase set at which the output VCF determines the parental "
+                              "haplotype a child inherited (parent heterozygous and phased, child phased in the same set or "
+                              "homozygous), that haplotype changes without an odd number of listed events in between (or does not "
+                              "change although an odd number is listed): " + desc, rp)
+            if holds("rec_complete", i) and not holds("rec_cover", i):
                 ctx.violation("phase:recombination-list-incomplete",
                               "the recombination list is not the concatenation of what write_recombination_list gives for each processed (chromosome, family): " + desc, rp)
         if len(ctx.samples) < 3:
